@@ -2341,7 +2341,13 @@ func builtinARef(env *LEnv, args *LVal) *LVal {
 	}
 	v := array.ArrayIndex(indices...)
 	if v.Type == LError {
-		return env.Error(v)
+		// v already is the error to signal.  Passing it to env.Error made it
+		// the DATUM of a second error, and an error value as a datum cannot
+		// be handled: the handler's parameter evaluates to an error, so a
+		// handler that mentions it raises again instead of returning.
+		if err := env.ErrorAssociate(v); err != nil {
+			return err
+		}
 	}
 	return v
 }
